@@ -1,11 +1,7 @@
 """C06 mutants: breaking edits (must be reported, still compile) and benign edits (must stay silent).
-edits: (file, old text occurring exactly once, new text).
-
-Run with the development known-findings file while /repo still has the genuine defects:
-    VERIF_KNOWN_EXTRA=<file with the C06 finding lines> python3 selftest/run.py C06
-The `C06-fix-*` entries apply the proposed repairs; they must be silent (the rule accepts the corrected code, the unchanged
-tree is the corresponding breaking case).  MUTANTS_AFTER_FIX lists the breaking edits that only apply once /repo carries
-the repairs (move them into MUTANTS then)."""
+edits: (file, old text occurring exactly once, new text).  Based on /repo after the four C06 repairs (strike->STRIKE, assign
+operators delegating to the binary ones, apply replacing the underline style, sgr_color bounded by take(4)) and the
+component-range fix; the `C06-orig-*` entries restore each original defect and must be caught."""
 E = "src/encoder.rs"
 D = "src/decoder.rs"
 F = "src/face.rs"
@@ -69,13 +65,6 @@ _APPLY_BG_FG = """        if let Some(background) = self.bg {
         }
 """
 
-_FIX_ASSIGN = [(F, "        self.bits &= rhs.bits\n", "        *self = *self & rhs\n"),
-               (F, "        self.bits |= rhs.bits\n", "        *self = *self | rhs\n"),
-               (F, "        self.bits ^= rhs.bits\n", "        *self = *self ^ rhs\n")]
-_FIX_STRIKE = [(F, "            (self.strike, FaceAttrs::BOLD),\n", "            (self.strike, FaceAttrs::STRIKE),\n")]
-_FIX_UNDERLINE = [(F, "            face.attrs |= underline.into();\n", "            face.attrs = FaceAttrs::pack(underline, face.attrs.unpack().1);\n")]
-_FIX_TAKE = [(D, "                sgr_color(&mut groups)\n", "                sgr_color(groups.by_ref().take(4))\n")]
-
 MUTANTS = [
     # ---- (a) SGR-TABLE
     # (b"3" and b"23" have different array types, so on/off cannot be swapped inside one row; swap across rows / digits instead)
@@ -115,13 +104,18 @@ MUTANTS = [
      "edits": [(D, "                face = FaceModify {\n                    reset: true,\n                    ..FaceModify::default()\n                }\n", "                face.reset = face.bold.is_none();\n")]},
     # ---- SGR-COLOR
     {"id": "C06-decoder-rgb-order", "prop": "C06", "expect": "SGR-COLOR/decoder::sgr_color/component-order",
-     "edits": [(D, "Some(RGBA::new(r as u8, g as u8, b as u8, 255))", "Some(RGBA::new(b as u8, g as u8, r as u8, 255))")]},
+     "edits": [(D, "Some(RGBA::new(r?, g?, b?, 255))", "Some(RGBA::new(b?, g?, r?, 255))")]},
     {"id": "C06-encoder-rgb-order", "prop": "C06", "expect": "SGR-COLOR/decoder::sgr_color/component-order",
      "edits": [(E, "for c in [r, g, b] {", "for c in [b, g, r] {")]},
     {"id": "C06-thunk-always-colon-iterator", "prop": "C06", "expect": "SGR-COLOR/decoder::sgr_face/thunk-iterators",
-     "edits": [(D, "                sgr_color(&mut groups)\n", "                sgr_color(&mut args)\n")]},
+     "edits": [(D, "                sgr_color(groups.by_ref().take(4))\n", "                sgr_color(&mut args)\n")]},
     {"id": "C06-take-too-short", "prop": "C06", "expect": "SGR-COLOR/decoder::sgr_color/component-order",
-     "edits": [(D, "                sgr_color(&mut groups)\n", "                sgr_color(groups.by_ref().take(3))\n")]},
+     "edits": [(D, "                sgr_color(groups.by_ref().take(4))\n", "                sgr_color(groups.by_ref().take(3))\n")]},
+    {"id": "C06-take-5-reads-next-parameter", "prop": "C06", "expect": "SGR-COLOR/decoder::sgr_color/swallows-next-parameter",
+     "edits": [(D, "                sgr_color(groups.by_ref().take(4))\n", "                sgr_color(groups.by_ref().take(5))\n")]},
+    {"id": "C06-orig-truncating-component-cast", "prop": "C06", "expect": "SGR-COLOR/decoder::sgr_color/component-overflow",
+     "edits": [(D, "                    let [r, g, b] = [r, g, b].map(|c| u8::try_from(c).ok());\n                    Some(RGBA::new(r?, g?, b?, 255))\n",
+                "                    Some(RGBA::new(r as u8, g as u8, b as u8, 255))\n")]},
     # ---- SGR-FRAME
     {"id": "C06-reset-pushed-last", "prop": "C06", "expect": "SGR-FRAME/TTYEncoder::encode/FaceModify/reset-not-first",
      "edits": [(E, _RESET_PUSH, ""), (E, _FLAG_LOOP, _FLAG_LOOP + _RESET_PUSH)]},
@@ -178,30 +172,30 @@ MUTANTS = [
      "edits": [(E, '                        (FaceAttrs::BOLD, b"1"),\n                        (FaceAttrs::ITALIC, b"3"),\n', '                        (FaceAttrs::ITALIC, b"3"),\n                        (FaceAttrs::BOLD, b"1"),\n')]},
     {"id": "C06-benign-flag-consts-as-literals", "prop": "C06", "benign": True,
      "edits": [(F, "bits: 16 << Self::UNDERLINE_BITS,", "bits: 128,")]},
-    # ---- the proposed repairs: must be accepted silently
-    {"id": "C06-fix-assign-ops", "prop": "C06", "benign": True, "edits": _FIX_ASSIGN},
-    {"id": "C06-fix-strike", "prop": "C06", "benign": True, "edits": _FIX_STRIKE},
-    {"id": "C06-fix-apply-underline", "prop": "C06", "benign": True, "edits": _FIX_UNDERLINE},
-    {"id": "C06-fix-sgr-color-take-4", "prop": "C06", "benign": True, "edits": _FIX_TAKE},
-    {"id": "C06-fix-all", "prop": "C06", "benign": True, "edits": _FIX_ASSIGN + _FIX_STRIKE + _FIX_UNDERLINE + _FIX_TAKE},
-    # ---- breaking edits on top of repairs (new keys even while the old ones are listed as known)
-    {"id": "C06-fixed-apply-then-flags-combined-broken", "prop": "C06", "expect": "APPLY-SEMANTICS/FaceModify::apply/flags-combined",
-     "edits": _FIX_STRIKE + [(F, "                Some(false) => face.attrs = face.attrs.remove(flag),\n",
-                              "                Some(false) => face.attrs = if self.bold == Some(true) { face.attrs } else { face.attrs.remove(flag) },\n")]},
-]
-
-# Breaking edits that only apply after /repo carries the repairs proposed for the known findings.
-MUTANTS_AFTER_FIX = [
-    {"id": "C06-bitor-assign-raw-bits", "prop": "C06", "expect": "SIBLING-OPS/FaceAttrs/BitOrAssign",
+    # ---- breaks only the combination of several flag updates
+    {"id": "C06-flags-combined-broken", "prop": "C06", "expect": "APPLY-SEMANTICS/FaceModify::apply/flags-combined",
+     "edits": [(F, "                Some(false) => face.attrs = face.attrs.remove(flag),\n",
+                "                Some(false) => face.attrs = if self.bold == Some(true) { face.attrs } else { face.attrs.remove(flag) },\n")]},
+    # ---- the original defects of the tree (repaired in /repo by 97ddd8a, 731bf05, b5ccb64, 462e7d1): each must be caught
+    {"id": "C06-orig-strike-to-bold", "prop": "C06", "expect": "APPLY-TABLE/FaceModify::apply/strike->BOLD",
+     "edits": [(F, "            (self.strike, FaceAttrs::STRIKE),\n", "            (self.strike, FaceAttrs::BOLD),\n")]},
+    {"id": "C06-orig-strike-to-bold-semantics", "prop": "C06", "expect": "APPLY-SEMANTICS/FaceModify::apply/strike",
+     "edits": [(F, "            (self.strike, FaceAttrs::STRIKE),\n", "            (self.strike, FaceAttrs::BOLD),\n")]},
+    {"id": "C06-orig-bitor-assign-raw-bits", "prop": "C06", "expect": "SIBLING-OPS/FaceAttrs/BitOrAssign",
      "edits": [(F, "        *self = *self | rhs\n", "        self.bits |= rhs.bits\n")]},
+    {"id": "C06-orig-bitand-assign-raw-bits", "prop": "C06", "expect": "SIBLING-OPS/FaceAttrs/BitAndAssign",
+     "edits": [(F, "        *self = *self & rhs\n", "        self.bits &= rhs.bits\n")]},
+    {"id": "C06-orig-bitxor-assign-raw-bits", "prop": "C06", "expect": "SIBLING-OPS/FaceAttrs/BitXorAssign",
+     "edits": [(F, "        *self = *self ^ rhs\n", "        self.bits ^= rhs.bits\n")]},
     {"id": "C06-bitand-assign-uses-or", "prop": "C06", "expect": "SIBLING-OPS/FaceAttrs/BitAndAssign",
      "edits": [(F, "        *self = *self & rhs\n", "        *self = *self | rhs\n")]},
-    {"id": "C06-bitxor-assign-raw-bits", "prop": "C06", "expect": "SIBLING-OPS/FaceAttrs/BitXorAssign",
-     "edits": [(F, "        *self = *self ^ rhs\n", "        self.bits ^= rhs.bits\n")]},
-    {"id": "C06-apply-strike-to-bold", "prop": "C06", "expect": "APPLY-TABLE/FaceModify::apply/strike->BOLD",
-     "edits": [(F, "            (self.strike, FaceAttrs::STRIKE),\n", "            (self.strike, FaceAttrs::BOLD),\n")]},
-    {"id": "C06-apply-underline-or-assign", "prop": "C06", "expect": "APPLY-SEMANTICS/FaceModify::apply/underline",
+    {"id": "C06-orig-apply-underline-or-assign", "prop": "C06", "expect": "APPLY-SEMANTICS/FaceModify::apply/underline",
      "edits": [(F, "            face.attrs = FaceAttrs::pack(underline, face.attrs.unpack().1);\n", "            face.attrs |= underline.into();\n")]},
-    {"id": "C06-sgr-color-unbounded", "prop": "C06", "expect": "SGR-COLOR/decoder::sgr_color/swallows-next-parameter",
+    {"id": "C06-orig-apply-underline-and-raw-ops", "prop": "C06", "expect": "APPLY-SEMANTICS/FaceModify::apply/underline",
+     "edits": [(F, "            face.attrs = FaceAttrs::pack(underline, face.attrs.unpack().1);\n", "            face.attrs |= underline.into();\n"),
+               (F, "        *self = *self | rhs\n", "        self.bits |= rhs.bits\n")]},
+    {"id": "C06-orig-sgr-color-unbounded", "prop": "C06", "expect": "SGR-COLOR/decoder::sgr_color/swallows-next-parameter",
      "edits": [(D, "sgr_color(groups.by_ref().take(4))", "sgr_color(&mut groups)")]},
+    {"id": "C06-benign-take-via-ref-mut", "prop": "C06", "benign": True,
+     "edits": [(D, "sgr_color(groups.by_ref().take(4))", "sgr_color((&mut groups).take(4))")]},
 ]
